@@ -15,19 +15,7 @@
 (*                                                                         *)
 (* Times are integers (grid units); the harness scales them.               *)
 (***************************************************************************)
-EXTENDS Integers, Sequences, FiniteSets
-
-Max2(a, b) == IF a >= b THEN a ELSE b
-Min2(a, b) == IF a <= b THEN a ELSE b
-
-(* a note sounds in the window when it starts inside it, or starts before it and still sounds after s *)
-Active(n, s, e) == (n.on >= s /\ n.on < e) \/ (n.on < s /\ n.off > s)
-
-(* clipOn: move a start before s to s; clipOff: move an end after e to e; shift: new origin *)
-Cut(n, s, e, clipOn, clipOff, shift) ==
-   [id |-> n.id,
-    on |-> (IF clipOn THEN Max2(n.on, s) ELSE n.on) - shift,
-    off |-> (IF clipOff THEN Min2(n.off, e) ELSE n.off) - shift]
+EXTENDS SliceNote, Sequences, FiniteSets
 
 RECURSIVE SliceOf(_, _, _, _, _, _)
 SliceOf(ns, s, e, clipOn, clipOff, shift) ==
